@@ -7,7 +7,7 @@
  R5 ptr/len stored only by the constructor; MemoryMap neither Clone nor Copy; as_mut_slice is unsafe and takes &mut self
 """
 from facts import Undecided, loc, subterms, tstr, callee_name, operand_place
-from guards import facts_at, has_cmp, must_pass_through, switch_arm_defs, const_names, strip_casts
+from guards import facts_at, has_cmp, must_pass_through, switch_arm_defs, const_names, strip_casts, edge_facts
 
 MM = "serialize::MemoryMap"
 NEW = "serialize::MemoryMap::new"
@@ -107,8 +107,17 @@ def check_config(ctx, F, tag):
         raise Undecided("anchor lost: no MemoryMap aggregate")
 
     mmaps = [(bi, t) for bi, t in new.calls() if callee_name(t) == "libc::mmap"]
-    if len(mmaps) != 1:
-        raise Undecided("expected exactly one libc::mmap call in %s, found %d" % (NEW, len(mmaps)))
+    if not mmaps:
+        raise Undecided("anchor lost: no libc::mmap call in %s" % NEW)
+    import serfmt
+    order = serfmt.rpo(new)
+    mmaps.sort(key=lambda x: order.get(x[0], 1 << 30))
+    if len(mmaps) > 1:
+        # a retry / fallback: the calls must map the same file with the same length and protection; the rules below are then
+        # decided on the first call, R1 on every call
+        same = all(new.term_of_operand(t["args"][k]) == new.term_of_operand(mmaps[0][1]["args"][k]) for _, t in mmaps[1:] for k in (1, 2, 4))
+        if not same:
+            raise Undecided("%d libc::mmap calls in %s that differ in length, protection or file" % (len(mmaps), NEW))
     mbi, mcall = mmaps[0]
     mwhere = loc(mcall["sp"])
     if mcall["dest"]["p"]:
@@ -131,14 +140,45 @@ def check_config(ctx, F, tag):
                 if (x == strip_ptr(mres_t) and is_map_failed(f[3])) or (y == strip_ptr(mres_t) and is_map_failed(f[2])):
                     ok = True
         nullcheck = [f for f in facts if f[0] == "bool" and f[1][0] == "call" and f[1][1].endswith("::is_null")]
-        ctx.ob("C18.R1.map-failed-check", NEW + tag, mwhere, ok and new.dominates(mbi, bi), "guard-dominance",
-               "the MemoryMap aggregate must be dominated by `mmap result != MAP_FAILED`; facts on the path: %s%s" % (
-                   seen, "; only a null test is present (mmap reports failure as MAP_FAILED = -1, never null)" if nullcheck and not ok else ""))
+        if len(mmaps) > 1:
+            # every call's result is compared with MAP_FAILED (or replaced by a later call's) on every path to the aggregate
+            results = {t["dest"]["l"] for _, t in mmaps if not t["dest"]["p"]}
+            grew = True
+            while grew:
+                grew = False
+                for bj, sj, stj in new.stmts():
+                    if stj["s"] == "assign" and not stj["lhs"]["p"] and stj["rv"]["r"] in ("use", "cast"):
+                        q = operand_place(stj["rv"]["o"])
+                        if q is not None and not q["p"] and q["l"] in results and stj["lhs"]["l"] not in results:
+                            results.add(stj["lhs"]["l"])
+                            grew = True
+            def about_result(x):
+                x = strip_ptr(x)
+                return (x[0] == "var" and x[1] in results) or any(x == strip_ptr(new.term_of_local(l)) for l in results)
+            via = [v for (u, v, f) in edge_facts(new) if f[0] == "cmp" and f[1] == "Ne" and
+                   ((about_result(f[2]) and is_map_failed(f[3])) or (about_result(f[3]) and is_map_failed(f[2])))]
+            unchecked = []
+            for k, (cbi, ct) in enumerate(mmaps):
+                others = [ob for ob, _ in mmaps if ob != cbi]
+                start = ct.get("target")
+                if start is None or start in via:
+                    continue
+                if bi in new.reach_from([start], avoid=set(via) | set(others)) or start == bi:
+                    unchecked.append(loc(ct["sp"]))
+            ctx.ob("C18.R1.map-failed-check", NEW + tag, mwhere, not unchecked, "must-pass-through",
+                   "%d mmap calls; each result must pass a `!= MAP_FAILED` edge (or be replaced by a later call) before the MemoryMap is built; unchecked: %s" % (len(mmaps), unchecked or "none"))
+        else:
+          ctx.ob("C18.R1.map-failed-check", NEW + tag, mwhere, ok and new.dominates(mbi, bi), "guard-dominance",
+                 "the MemoryMap aggregate must be dominated by `mmap result != MAP_FAILED`; facts on the path: %s%s" % (
+                     seen, "; only a null test is present (mmap reports failure as MAP_FAILED = -1, never null)" if nullcheck and not ok else ""))
         # ptr field derives from the mmap result
         rv = st["rv"]
         ops = dict(zip(rv["fields"], rv["ops"]))
         pt = strip_ptr(b.term_of_operand(ops["ptr"]))
-        ctx.ob("C18.R3.ptr-is-mmap-result", NEW + tag, loc(st["sp"]), pt == strip_ptr(mres_t), "term-provenance",
+        okpt = pt == strip_ptr(mres_t)
+        if len(mmaps) > 1:
+            okpt = pt[0] == "var" and pt[1] in results or any(pt == strip_ptr(new.term_of_local(l)) for l in results)
+        ctx.ob("C18.R3.ptr-is-mmap-result", NEW + tag, loc(st["sp"]), okpt, "term-provenance",
                "MemoryMap.ptr = %s (must be the mmap result)" % tstr(pt))
         lt = b.term_of_operand(ops["len"])
         ok_len = lt[0] == "call" and lt[1] == "bits::bytes_to_words" and lt[2][0] == mlen_t
@@ -167,9 +207,24 @@ def check_config(ctx, F, tag):
            [tstr(("bin", f[1], f[2], f[3])) for f in facts if f[0] == "cmp"])
 
     # ---- R4 flags / modes
-    flags = new.term_of_operand(mcall["args"][3])
-    ctx.ob("C18.R4.map-shared", NEW + tag, mwhere, const_names(flags) == {"libc::MAP_SHARED"} and flags[0] == "const", "constant",
-           "mmap flags term: %s (must be libc::MAP_SHARED)" % tstr(flags))
+    # a shared file mapping: MAP_SHARED present, nothing that detaches the mapping from the file or places it (advisory flags such as
+    # MAP_POPULATE / MAP_NORESERVE do not change what the slice shows)
+    FORBIDDEN = {"MAP_PRIVATE", "MAP_ANONYMOUS", "MAP_ANON", "MAP_FIXED", "MAP_FIXED_NOREPLACE", "MAP_SHARED_VALIDATE"}
+    okf, shown = True, []
+    for _, ct in mmaps:
+        flags = new.term_of_operand(ct["args"][3])
+        alts = [flags]
+        if strip_casts(flags)[0] == "var":        # chosen per case (`if populate { A | B } else { A }`): every choice must qualify
+            roots = new.root_defs(strip_casts(flags)[1])
+            if roots:
+                alts = [new.term_of_rvalue(rv) for _, rv in roots]
+        for fl in alts:
+            names = {n.split("::")[-1] for n in const_names(fl)}
+            pure = all(x[0] in ("const", "namedconst", "constref", "cast") or (x[0] == "bin" and x[1] == "BitOr") for x in subterms(fl) if isinstance(x, tuple) and x and isinstance(x[0], str))
+            okf = okf and "MAP_SHARED" in names and not (names & FORBIDDEN) and pure
+            shown.append(tstr(fl))
+    ctx.ob("C18.R4.map-shared", NEW + tag, mwhere, okf, "constant",
+           "mmap flags term(s): %s (MAP_SHARED, or-ed only with advisory flags; none of %s)" % (shown, sorted(FORBIDDEN)))
     modeadt = F.adt(MODE)
     vnames = [v["name"] for v in modeadt["variants"]]
     if sorted(vnames) != ["Mutable", "ReadOnly"]:
